@@ -777,3 +777,89 @@ SPAR = Unit(['C18', 'C09'], OPT + 'sample_parameters', _sp_params, yields=_sp_yi
             native=_sp_native, gen=_sp_gen, short='Optimizer.sample_parameters',
             doc='the posterior draws handed to the spread computation: for every drawn index the sample row and the weight OF THAT SAME '
                 'index (plus 1e-300), drawn from all samples with the configured fraction (random_int_iter abstract: enumerated picks)')
+
+
+# ------------------------------------------------------------------ Optimizer.generate_profiles: rank 0 draws, everybody gets the same list
+def _gpr_params(c):
+    if c.mode == 'conc':
+        return dict(self=dict(__obj__='Optimizer'), solution=0, binning='<binning>')
+    return dict(self=ObjSpec('Optimizer', _model=AbsObj('ForwardModel', 0, {}), _binner=AbsObj('Binner', 'binner', {})), solution=0,
+                binning=c.array('obs', (c.int('B'),)))
+
+
+def _h_sp_list(ex, st, args, kwargs, node):
+    _ev(st, 'sample_parameters', args[1])
+    return st.alloc(ex.c, PyList([('params0', ex.c.real('w0')), ('params1', ex.c.real('w1'))]))
+
+
+def _h_bcast(ex, st, args, kwargs, node):
+    v = args[0]
+    items = list(st.get(v).items) if isinstance(v, Ref) else None
+    _ev(st, 'broadcast', None if items is None else len(items))
+    if items is None:        # a rank other than 0 hands in None and receives what rank 0 drew
+        return st.alloc(ex.c, PyList([('params0', ex.c.real('w0')), ('params1', ex.c.real('w1'))]))
+    return v
+
+
+def _h_cerr(ex, st, o, args, kwargs, node):
+    it = args[0]
+    wn, bn = kwargs.get('wngrid'), kwargs.get('binner')
+    _ev(st, 'compute_error', type(it).__name__ + ':' + str(getattr(it, 'kind', '')), wn.id if isinstance(wn, Ref) else wn,
+        bn.ident if isinstance(bn, AbsObj) else bn)
+    return ('profile-spread', 'spectrum-spread')
+
+
+def _gpr_post(c, v0, v1, r):
+    fx = c.fixed if c.mode != 'conc' else c.values
+    tr = [tuple(e) for e in (c.trace or []) if e[0] in ('sample_parameters', 'broadcast', 'compute_error')]
+    if c.mode == 'conc':
+        want = ([('sample_parameters', 0)] if fx['rank'] == 0 else []) + [('broadcast', 2 if fx['rank'] == 0 else None),
+                                                                          ('compute_error', 'iterator', '<binning>', 'binner')]
+        return {'rank_0_draws_all_ranks_share_then_one_spread_computation': tr == want, 'returns_its_result': r == ('profile-spread', 'spectrum-spread')}
+    want = ([('sample_parameters', 0)] if fx['rank'] == 0 else []) + [('broadcast', 2 if fx['rank'] == 0 else None),
+                                                                      ('compute_error', 'FuncV:closure', v0.ref('binning').id, 'binner')]
+    return {'rank_0_draws_all_ranks_share_then_one_spread_computation': tr == want,
+            'returns_its_result': c.raw['ret'] == ('profile-spread', 'spectrum-spread')}
+
+
+def _gpr_native(c, p):
+    import taurex.mpi as mpi
+    from taurex.optimizer.optimizer import Optimizer
+    fx = c.values
+    trace = []
+
+    class _O(Optimizer):
+        def sample_parameters(self, solution):
+            trace.append(('sample_parameters', solution))
+            return iter([('params0', 0.1), ('params1', 0.2)])
+    o = _O.__new__(_O)
+    for nm in ('debug', 'info', 'warning', 'error', 'critical'):
+        setattr(o, nm, lambda *a, **k: None)
+
+    class _M:
+        def compute_error(self, it, wngrid=None, binner=None):
+            trace.append(('compute_error', 'iterator' if callable(it) else '?', wngrid, binner))
+            return ('profile-spread', 'spectrum-spread')
+    o._model, o._binner = _M(), 'binner'
+    saved = (mpi.get_rank, mpi.nprocs, mpi.broadcast)
+    mpi.get_rank, mpi.nprocs = (lambda comm=None: fx['rank']), (lambda: fx['size'])
+
+    def bc(x, rank=0):
+        trace.append(('broadcast', None if x is None else len(x)))
+        return x if x is not None else [('params0', 0.1), ('params1', 0.2)]
+    mpi.broadcast = bc
+    try:
+        r = o.generate_profiles(0, '<binning>')
+    finally:
+        mpi.get_rank, mpi.nprocs, mpi.broadcast = saved
+    return r, dict(p, __trace__=trace)
+
+
+_GPR_CASES = [dict(rank=r, size=s) for s in (1, 2, 3) for r in range(s)]
+GPR = Unit(['C18', 'C09'], OPT + 'generate_profiles', _gpr_params, post=_gpr_post, cases=_GPR_CASES, bounds=[dict(B=2)], native=_gpr_native,
+           abstract={'call:get_rank': lambda ex, st, args, kwargs, node: ex.c.fixed['rank'], 'call:nprocs': lambda ex, st, args, kwargs, node: ex.c.fixed['size'],
+                     'call:sample_parameters': _h_sp_list, 'call:broadcast': _h_bcast, 'ForwardModel.compute_error': _h_cerr,
+                     'call:enableLogging': _noop, 'call:disableLogging': _noop},
+           gen=lambda rng: dict(rng.choice(_GPR_CASES), B=2, obs=[1.0, 2.0]), short='Optimizer.generate_profiles',
+           doc='the posterior-spread step: only rank 0 draws the sample list, every rank receives it by broadcast, then ONE compute_error with the '
+               'round-robin iterator (its own unit), the observation grid and the binner of the optimizer; its result is returned (1..3 ranks)')
